@@ -278,6 +278,20 @@ func switchCoversKinds(fn *ssa.Function, m *serverModel) (bool, string) {
 	seen := map[int64]bool{}
 	for _, b := range fn.Blocks {
 		for _, in := range b.Instrs {
+			// kinds served from a frozen package-level table indexed by the Kind
+			if lk, ok := in.(*ssa.Lookup); ok && m.c != nil {
+				if _, fld, isF := facts.FieldOf(facts.Resolve(lk.Index)); isF && fld == "Kind" {
+					if g := loadedGlobal(lk.X); g != nil {
+						if entries, frozen := globalMapEntries(m.c, g); frozen {
+							for _, e := range entries {
+								if k, ok := facts.ConstInt(e.Key); ok {
+									seen[k] = true
+								}
+							}
+						}
+					}
+				}
+			}
 			bo, ok := in.(*ssa.BinOp)
 			if !ok || bo.Op != token.EQL {
 				continue
